@@ -236,6 +236,7 @@ func TestC05(t *testing.T) {
 		return
 	}
 	avoidAll := pbt.AvoidTags("C05", "C11", "C12", "C07", "C01")
+	c.SetRecheck(func(k any) []pbt.Violation { return evalC05(k.(c05Case)) })
 	replayKnownX(t, c, func(k c05Case) []pbt.Violation { return evalC05(k) })
 	excluded := 0
 	c.Check(t, func(rt *rapid.T) {
